@@ -128,6 +128,7 @@ class LoginServer:
         self.out = bytearray()
         self.segments = []      # (state the server is in after printing, text)
         self.log = []           # (state, line typed, bytes delivered to the client when it arrived)
+        self.raw = []           # [state, every byte received while the server was waiting in it] per visit of a state
         self.line = bytearray()
         self.closed = False
         self.state = None
@@ -135,6 +136,7 @@ class LoginServer:
 
     def _emit(self, st):
         self.state, text = st
+        self.raw.append([self.state, bytearray()])
         self.segments.append((self.state, bytes(text)))
         self.out += text
         if self.state == "closed":
@@ -142,6 +144,7 @@ class LoginServer:
 
     def feed(self, data, delivered):
         for c in data:
+            self.raw[-1][1].append(c)       # the byte belongs to the state it arrives in (a return included)
             if c == 10:
                 line = bytes(self.line)
                 self.line = bytearray()
@@ -157,6 +160,12 @@ def ideal(spec, creds, fatal_applies):
     """what a correct client obtains from this server: (outcome, [(state, line)], segments, prompt ends).
     Written from the property: answer each prompt with its credential, at most twice, stop at the third
     sighting, at a fatal ssh message, at the shell prompt; independent of the Coq model."""
+    return ideal_full(spec, creds, fatal_applies)[:4]
+
+
+def ideal_full(spec, creds, fatal_applies):
+    """ideal() + the server the correct client talked to (its byte-level record `raw`: what the device receives,
+    state by state, from a client that types the configured credential, as bytes, and ONE return at each prompt)"""
     srv = LoginServer(spec)
     cred_of = {"login": creds["user"], "password": creds["pass"], "passphrase": creds["phrase"]}
     counts = {}
@@ -166,17 +175,17 @@ def ideal(spec, creds, fatal_applies):
         state, text = srv.segments[-1]
         clean = text.replace(b"\r", b"")
         if fatal_applies and fatal_end(clean) is not None:
-            return "ScrapliAuthenticationFailed", log, srv.segments, "fatal"
+            return "ScrapliAuthenticationFailed", log, srv.segments, "fatal", srv
         if state == "shell":
-            return "ok", log, srv.segments, "done"
+            return "ok", log, srv.segments, "done", srv
         if state in ("dead", "closed"):
-            return ("Starved" if state == "dead" else "closed"), log, srv.segments, state
+            return ("Starved" if state == "dead" else "closed"), log, srv.segments, state, srv
         if state == "idle":
             log.append((state, b""))
             srv.feed(b"\n", 0)
             continue
         if counts.get(state, 0) >= 2:
-            return "ScrapliAuthenticationFailed", log, srv.segments, "third"
+            return "ScrapliAuthenticationFailed", log, srv.segments, "third", srv
         counts[state] = counts.get(state, 0) + 1
         log.append((state, cred_of[state]))
         srv.feed(cred_of[state] + b"\n", 0)
@@ -197,13 +206,19 @@ class Policy:
       optional "inject": {"<read index>": ["empty", t] | ["err"]}   an empty read / a connection error
       optional "times": [t0, t1, ...] (ms, per read index; last one repeats) — default 0
       optional "idle": [t, ...]  clock readings of empty reads delivered while nothing is pending (a server that
-                                 is silent); when they are used up a read with nothing pending blocks"""
+                                 is silent); when they are used up a read with nothing pending blocks
+      optional "quiet": [n, dt]  a device that thinks before it reacts (AAA round trip, slow console): after every
+                                 write of the client the next n reads find nothing (sync: read() returns b"", asyncio:
+                                 the read poll expires), the clock moving on by dt ms each time -- what the device has
+                                 printed in reaction to the line is only delivered after that quiet gap (a gap begins with
+                                 a completed line and is not prolonged by what arrives during it; <= 12 quiet reads a run)"""
 
     def __init__(self, desc):
         self.d = desc
         self.inject = {int(k): v for k, v in (desc.get("inject") or {}).items()}
         self.times = desc.get("times") or [0]
         self.idle = list(desc.get("idle") or [])
+        self.quiet = list(desc.get("quiet") or [0, 0])
 
     def time(self, k):
         return self.times[k] if k < len(self.times) else self.times[-1]
@@ -245,12 +260,23 @@ class _Common:
         self.eof = eof        # what a read does when the server has hung up: "raise" | "empty"
         self.opened = True
         self.writes = []
+        self.wlog = []        # (state the server is in when the write call begins, bytes of the call)
         self.max_reads = max_reads
+        self.quiet_left = 0   # empty reads still to serve before the reaction to the last write is delivered
+        self.quiet_clock = 0  # ms elapsed in quiet gaps so far
+        self.quiet_used = 0
 
     def _next(self):
         """-> ("data", bytes) | ("expire",) | ("err",)"""
         if self.k >= self.max_reads:
             raise Starved()
+        if self.quiet_left > 0:
+            self.quiet_left -= 1
+            self.quiet_used += 1
+            self.quiet_clock += self.policy.quiet[1]
+            self.now = self.quiet_clock / 1000.0
+            self.reads.append(("empty", b"", self.quiet_clock))
+            return ("expire",)
         pending = len(self.server.out) - self.delivered
         e = self.policy.next(self.delivered, pending, self.k)
         self.k += 1
@@ -288,6 +314,11 @@ class _Common:
         b = bytes(b)
         self.writes.append(b)
         self.hist.append(("w", b))
+        self.wlog.append((getattr(self.server, "state", None), b))
+        if self.quiet_left == 0 and b.endswith(b"\n") and self.quiet_used < 12:
+            # the device has a line to think about (not re-armed by what arrives while it is quiet; at most 12 quiet
+            # reads per run, so that a client that sends returns into the silence cannot keep the device quiet for ever)
+            self.quiet_left = min(self.policy.quiet[0], 12 - self.quiet_used)
         self.server.feed(b, self.delivered)
 
     def close(self):
@@ -444,7 +475,8 @@ def _classify(e):
 
 def _result(out, t):
     return {"outcome": out, "hist": list(t.hist), "reads": list(t.reads), "log": list(t.server.log) if t.server else [],
-            "cut_short": t.k >= t.max_reads,
+            "cut_short": t.k >= t.max_reads, "wlog": list(t.wlog),
+            "raw": [(st, bytes(b)) for st, b in getattr(t.server, "raw", [])] if t.server else [],
             "segments": list(t.server.segments) if t.server else [], "delivered": t.delivered, "writes": list(t.writes)}
 
 
@@ -903,6 +935,50 @@ def own_prompt_oracle(result, creds):
             counts[state] = counts.get(state, 0) + 1
             if counts[state] == 3:
                 bad.append("credential of state %s submitted a third time" % state)
+    return bad
+
+
+def own_bytes_oracle(result, creds, states=True):
+    """byte-level device-side reading of "each credential is written in response to its own prompt" for ANY configured
+    VALUES (blanks, tabs, empty, long, non-ASCII, a trailing newline ...): every write call the device receives is either
+    the return character or, byte for byte, the configured credential (UTF-8, what Channel.write documents: the string,
+    encoded) of the prompt state the device is waiting in, each at most twice and each followed by a return; and what the
+    device has received while it waited in a prompt state is that credential and ONE return -- not a trimmed, escaped,
+    re-encoded or repeated variant of it.  `creds` = what the USER configured.  states=False (runs in which bare returns
+    of the telnet kick have raced with the device's prompts, so that client and device may legitimately disagree about the
+    state): every write is the return or, byte for byte, ONE of the configured values, followed by a return."""
+    own = {"login": creds["user"], "password": creds["pass"], "passphrase": creds["phrase"]}
+
+    def sh(b):
+        return repr(b) if len(b) <= 48 else "%r...(%d bytes)" % (b[:32], len(b))
+
+    bad, counts = [], {}
+    wl = result["wlog"]
+    for i, (state, b) in enumerate(wl):
+        if b == b"\n":
+            continue
+        if not states:
+            if b not in own.values():
+                bad.append("the device received %s, which is none of the configured values" % sh(b))
+            elif i + 1 >= len(wl) or wl[i + 1][1] != b"\n":
+                bad.append("credential %s not followed by a return" % sh(b))
+            continue
+        if state not in own:
+            bad.append("%s written while the device is in state %s" % (sh(b), state))
+            continue
+        if b != own[state]:
+            bad.append("the device received %s at the %s prompt, the configured value is %s" % (sh(b), state, sh(own[state])))
+            continue
+        counts[state] = counts.get(state, 0) + 1
+        if counts[state] == 3:
+            bad.append("credential of state %s submitted a third time" % state)
+        if i + 1 >= len(wl) or wl[i + 1][1] != b"\n":
+            bad.append("credential of state %s not followed by a return" % state)
+    for state, got in result["raw"] if states else []:
+        if state in own and b"\n" not in own[state] and got not in (b"", b"\n", own[state] + b"\n"):
+            msg = "bytes received in state %s: %s, wanted %s" % (state, sh(got), sh(own[state] + b"\n"))
+            if msg not in bad:
+                bad.append(msg)
     return bad
 
 
